@@ -23,11 +23,11 @@ Open Scope N_scope.
 
 (* ghost: how a record came into being *)
 Inductive origin :=
-| OOwnReq                (* the tunnel itself sent a CreateRelayRequest for r_peer to this node (not the target) *)
-| OTargetLeg (via : N)   (* target leg: a CreateRelayRequest naming r_peer as source arrived on tunnel [via]; this
+| GOwnReq                (* the tunnel itself sent a CreateRelayRequest for r_peer to this node (not the target) *)
+| GTargetLeg (via : N)   (* target leg: a CreateRelayRequest naming r_peer as source arrived on tunnel [via]; this
                             tunnel was the primary tunnel of the requested target *)
-| OTerminal              (* this node is the target of the relay *)
-| OStart.                (* this node asked the tunnel's peer to relay for it (StartRelays) *)
+| GTerminal              (* this node is the target of the relay *)
+| GStart.                (* this node asked the tunnel's peer to relay for it (StartRelays) *)
 
 Record relay := mkR {
   r_peer : N;            (* Relay.PeerAddr *)
@@ -246,6 +246,45 @@ Definition insert_via (h ip : N) (s : state) : state :=
   | None => s
   end.
 
+(* the first Established record of the tunnel for one of the given addresses *)
+Fixpoint find_est (recs : list relay) (addrs : list N) : option relay :=
+  match addrs with
+  | [] => None
+  | a :: r =>
+      match rec_by_addr recs a with
+      | Some x => if rstate_eqb (r_st x) SEst then Some x else find_est recs r
+      | None => find_est recs r
+      end
+  end.
+
+(* QueryVpnAddrsRelayFor: the primary first, then the other tunnels holding the address *)
+Fixpoint query_relay_for (s : state) (l : list N) (addrs : list N) : option (N * relay) :=
+  match l with
+  | [] => None
+  | t :: r =>
+      match tun s t with
+      | Some tq => match find_est (t_recs tq) addrs with
+                   | Some x => Some (t, x)
+                   | None => query_relay_for s r addrs
+                   end
+      | None => query_relay_for s r addrs
+      end
+  end.
+
+(* ---------- writing a control message to a tunnel ------------------------------------------------ *)
+
+(* sendNoMetrics for a tunnel without a direct underlay address walks RelayState.relays: relays through which no
+   Established record for the tunnel is found are dropped from the list, the first usable one carries the message
+   (as a relay data packet, not seen as a control message on the wire) *)
+Fixpoint prune_via (s : state) (addrs : list N) (l : list N) : list N :=
+  match l with
+  | [] => []
+  | ip :: r => match query_relay_for s (hostlist s ip) addrs with
+               | Some _ => l
+               | None => prune_via s addrs r
+               end
+  end.
+
 (* ---------- control messages -------------------------------------------------------------------- *)
 
 (* NebulaControl after protobuf decoding (v2 addresses already unmapped) *)
@@ -261,6 +300,14 @@ Record omsg := mkO {
   o_to : N;                  (* tunnel it is written to *)
   o_typ : N; o_v1 : bool; o_from : N; o_dst : N; o_init : N; o_resp : N
 }.
+
+(* SendMessageToHostInfo: the control messages that reach the wire directly *)
+Definition deliver_to (s : state) (m : omsg) : state * list omsg :=
+  match tun s (o_to m) with
+  | Some t => if t_valid t then (s, [m])
+              else (with_tun s (o_to m) (t_with_via t (prune_via s (t_addrs t) (t_via t))), [])
+  | None => (s, [])
+  end.
 
 (* HandleControlMsg: version detection and the nil checks *)
 Definition decode (w : wire) : option (bool * N * N) :=
@@ -323,7 +370,25 @@ Definition do_hact (ha : hact) (h key rem : N) (am : bool) (org : origin) (cs : 
 Definition rec_of (s : state) (h key : N) : option relay :=
   match tun s h with Some t => rec_by_addr (t_recs t) key | None => None end.
 
-(* handleCreateRelayRequest *)
+Definition is_top (a : sact) : bool := match a with SToP => true | _ => false end.
+Definition is_toh (a : sact) : bool := match a with SToH => true | _ => false end.
+
+Definition send_if (c : bool) (s : state) (m : option omsg) : state * list omsg :=
+  if c then match m with Some x => deliver_to s x | None => (s, []) end else (s, []).
+
+(* second half of handleCreateRelayRequest: the arrival tunnel's record, then the answer on the same tunnel *)
+Definition request_tail (a : act) (h key from target init : N) (v1 tm am : bool) (s1 : state) (cs1 : list N)
+                        (sendP : list omsg) (hs : option N) : state * list omsg * option N :=
+  match do_hact (a_h a) h key init am (if tm then GTerminal else GOwnReq) cs1 s1 with
+  | None => (s1, sendP, hs)
+  | Some (s2, _) =>
+      let (s2', sendH) := send_if (is_toh (a_s a)) s2
+                            (option_map (fun r => mkO h 2 v1 from target (r_rem r) (r_idx r)) (rec_of s2 h from)) in
+      (s2', sendP ++ sendH, hs)
+  end.
+
+(* handleCreateRelayRequest: the target's tunnel is looked up first; its record is updated / created and the request
+   passed on before the arrival tunnel's own record is created *)
 Definition step_request (s : state) (h : N) (th : tunnel) (v1 : bool) (from target init : N) (cs : list N)
   : state * list omsg * option N :=
   match req_decide (qrow_of s th v1 from target init) with
@@ -332,33 +397,16 @@ Definition step_request (s : state) (h : N) (th : tunnel) (v1 : bool) (from targ
       let tm := is_me s target in
       let key := if tm then from else target in
       let hs := if a_hs a then Some target else None in
-      let po := primary s target in
-      let r1 := match po with
-                | Some p => do_pact (a_p a) p from (s_am s) (OTargetLeg h) cs s
-                | None => Some (s, cs)
-                end in
-      match r1 with
-      | None => (s, [], hs)
-      | Some (s1, cs1) =>
-          let sendP := match a_s a, po with
-                       | SToP, Some p => match rec_of s1 p from with
-                                         | Some r => [mkO p 1 v1 (addr0 th) target (r_idx r) 0]
-                                         | None => []
-                                         end
-                       | _, _ => []
-                       end in
-          match do_hact (a_h a) h key init (s_am s) (if tm then OTerminal else OOwnReq) cs1 s1 with
-          | None => (s1, sendP, hs)
-          | Some (s2, _) =>
-              let sendH := match a_s a with
-                           | SToH => match rec_of s2 h from with
-                                     | Some r => [mkO h 2 v1 from target (r_rem r) (r_idx r)]
-                                     | None => []
-                                     end
-                           | _ => []
-                           end in
-              (s2, sendP ++ sendH, hs)
+      match primary s target with
+      | Some p =>
+          match do_pact (a_p a) p from (s_am s) (GTargetLeg h) cs s with
+          | None => (s, [], hs)
+          | Some (s1, cs1) =>
+              let (s1', sendP) := send_if (is_top (a_s a)) s1
+                                    (option_map (fun r => mkO p 1 v1 (addr0 th) target (r_idx r) 0) (rec_of s1 p from)) in
+              request_tail a h key from target init v1 tm (s_am s) s1' cs1 sendP hs
           end
+      | None => request_tail a h key from target init v1 tm (s_am s) s cs [] hs
       end
   end.
 
@@ -398,14 +446,12 @@ Definition step_response (s : state) (h : N) (th : tunnel) (v1 : bool) (to init 
           | None => (s1, [], None)
           | Some p =>
               let s2 := match a_p a with PSet st => set_state_by_addr p to st s1 | _ => s1 end in
-              let send := match a_s a with
-                          | SToP => match rec_of s1 p to, tun s1 p with
-                                    | Some pr, Some tp => [mkO p 2 v1 (addr0 tp) to (r_rem pr) (r_idx pr)]
-                                    | _, _ => []
-                                    end
-                          | _ => []
-                          end in
-              (s2, send, None)
+              let (s3, send) := send_if (is_top (a_s a)) s2
+                                  (match rec_of s1 p to, tun s1 p with
+                                   | Some pr, Some tp => Some (mkO p 2 v1 (addr0 tp) to (r_rem pr) (r_idx pr))
+                                   | _, _ => None
+                                   end) in
+              (s3, send, None)
           end
       end
   end.
@@ -446,7 +492,7 @@ Definition start_relays (s : state) (relay vpn : N) (cs : list N) : state * list
             else
               match rec_by_addr (t_recs t) vpn with
               | None =>
-                  match add_relay rh vpn 0 TTerm SReq (s_am s) OStart cs s with
+                  match add_relay rh vpn 0 TTerm SReq (s_am s) GStart cs s with
                   | (s', Some i, _) => (s', own_request s rh t vpn i, None)
                   | (_, None, _) => (s, [], None)
                   end
@@ -485,31 +531,6 @@ Definition step_state (s : state) (o : op) : state := fst (fst (step s o)).
 Definition run (s : state) (ops : list op) : state := fold_left step_state ops s.
 
 (* ---------- forwarding ------------------------------------------------------------------------------ *)
-
-(* the first Established record of the tunnel for one of the given addresses *)
-Fixpoint find_est (recs : list relay) (addrs : list N) : option relay :=
-  match addrs with
-  | [] => None
-  | a :: r =>
-      match rec_by_addr recs a with
-      | Some x => if rstate_eqb (r_st x) SEst then Some x else find_est recs r
-      | None => find_est recs r
-      end
-  end.
-
-(* QueryVpnAddrsRelayFor: the primary first, then the other tunnels holding the address *)
-Fixpoint query_relay_for (s : state) (l : list N) (addrs : list N) : option (N * relay) :=
-  match l with
-  | [] => None
-  | t :: r =>
-      match tun s t with
-      | Some tt => match find_est (t_recs tt) addrs with
-                   | Some x => Some (t, x)
-                   | None => query_relay_for s r addrs
-                   end
-      | None => query_relay_for s r addrs
-      end
-  end.
 
 (* handleOutsideRelayPacket, ForwardingType path: a relay packet authenticated on tunnel h carrying relay index
    idx is re-sent on tunnel t under record r (header index r_rem r), or dropped *)
@@ -602,7 +623,7 @@ Definition qrow_gate_ok (ra : qrow * act) : bool :=
    for a forwarding record whose peer is known; nothing is ever created *)
 Definition xrow_gate_ok (ra : xrow * act) : bool :=
   let (r, a) := ra in
-  match a_h a with HNone | HComplete => true | _ => false end &&
+  match a_h a with HNone | HComplete | HSet SEst => true | _ => false end &&
   implb (negb (is_some (x_rec r))) (negb (touches_h a)) &&
   match a_p a with PNone | PSet SEst => true | _ => false end &&
   implb (touches_p a || sends a)
